@@ -332,16 +332,20 @@ pub fn process_weak_refs(
     for (id, addr) in strong {
         if let Some(o) = obj::raw_to_ref(addr) {
             if reachable_now(o).is_none() {
-                violation(
-                    "C13",
-                    "closure-incomplete",
-                    format!(
-                        "process_weak_refs round {}: object id {} at {:#x}, reachable from the roots or from a value traced in an earlier round, is not yet reachable: the transitive closure was not complete",
-                        with_world(|w| w.pause.weak_rounds),
-                        id,
-                        addr
-                    ),
-                );
+                // Either process_weak_refs was called too early (C13), or the tracer never gets
+                // to this object at all (a missing remembered-set entry, a lost SATB record, a
+                // forwarding race: C01/C05/C12/C17).  The end of the pause tells them apart: in the
+                // second case the object is lost and the heap-integrity oracles report it.
+                with_world(|w| {
+                    if w.pause.closure_suspect.is_none() {
+                        w.pause.closure_suspect = Some(format!(
+                            "process_weak_refs round {}: object id {} at {:#x}, reachable from the roots or from a value traced in an earlier round, was not yet reachable although it did survive the collection: the transitive closure was not complete when process_weak_refs was called",
+                            w.pause.weak_rounds, id, addr
+                        ));
+                    }
+                    w.count("closure_suspects");
+                });
+                break;
             }
         }
     }
@@ -554,6 +558,10 @@ pub fn on_resume() {
         }
         if info.pause != 2 {
             w.reclaiming_pauses += 1;
+        }
+        // -- C13: a closure found incomplete at process_weak_refs although nothing was lost
+        if let Some(msg) = w.pause.closure_suspect.take() {
+            violation("C13", "closure-incomplete", format!("pause {}: {}", w.pause.n, msg));
         }
         settle_after_pause(w, &found, iv, info);
         crate::probes::at_resume(w, &found, info);
